@@ -147,16 +147,78 @@ class RemoveUndefinedClassesTransformer(cst.CSTTransformer):
     return updated_node
 
 
+class QuoteNestedClassesTransformer(cst.CSTTransformer):
+  """Hides references to a class nested in a class of the stub from the merge.
+
+  The merge reads a dotted name `A.B` in an annotation or a base class list as
+  "B from module A" and would add `from A import B` to the source. A string
+  annotation is left alone, and base classes are only needed for `Generic`.
+  """
+
+  def __init__(self, class_names: set[str]):
+    super().__init__()
+    self._class_names = class_names
+    self._annotation_depth = 0
+
+  def _is_nested_class(self, node: cst.BaseExpression) -> bool:
+    if isinstance(node, cst.Subscript):
+      node = node.value
+    if not isinstance(node, cst.Attribute):
+      return False
+    while isinstance(node, cst.Attribute):
+      node = node.value
+    return isinstance(node, cst.Name) and node.value in self._class_names
+
+  def visit_Annotation(self, node: cst.Annotation) -> None:
+    self._annotation_depth += 1
+
+  def leave_Annotation(
+      self, original_node: cst.Annotation, updated_node: cst.Annotation
+  ) -> cst.Annotation:
+    self._annotation_depth -= 1
+    return updated_node
+
+  def visit_Attribute(self, node: cst.Attribute) -> bool:
+    return False
+
+  def leave_Attribute(
+      self, original_node: cst.Attribute, updated_node: cst.Attribute
+  ) -> cst.BaseExpression:
+    if self._annotation_depth and self._is_nested_class(original_node):
+      return cst.SimpleString(repr(cst.Module([]).code_for_node(original_node)))
+    return updated_node
+
+  def leave_Subscript(
+      self, original_node: cst.Subscript, updated_node: cst.Subscript
+  ) -> cst.BaseExpression:
+    if self._annotation_depth and self._is_nested_class(original_node.value):
+      return cst.SimpleString(repr(cst.Module([]).code_for_node(original_node)))
+    return updated_node
+
+  def leave_ClassDef(
+      self, original_node: cst.ClassDef, updated_node: cst.ClassDef
+  ) -> cst.ClassDef:
+    bases = [
+        base
+        for base in updated_node.bases
+        if not self._is_nested_class(base.value)
+    ]
+    return updated_node.with_changes(bases=bases)
+
+
 def merge_sources(*, py: str, pyi: str) -> str:
   try:
     py_cst = cst.parse_module(py)
     class_collector = _ClassNameCollector()
     py_cst.visit(class_collector)
+    pyi_cst = cst.parse_module(pyi)
+    stub_class_collector = _ClassNameCollector()
+    pyi_cst.visit(stub_class_collector)
     pyi_cst = (
-        cst.parse_module(pyi)
-        .visit(RemoveAnyNeverTransformer())
+        pyi_cst.visit(RemoveAnyNeverTransformer())
         .visit(RemoveTrivialTypesTransformer())
         .visit(RemoveUndefinedClassesTransformer(class_collector.class_names))
+        .visit(QuoteNestedClassesTransformer(stub_class_collector.class_names))
     )
     merged_cst = _merge_csts(py_tree=py_cst, pyi_tree=pyi_cst)
     return merged_cst.code
